@@ -4,7 +4,7 @@
    reader's lookup gets a response from holds the key. A node does not consult its own store: it only
    holds its own copy if its lookup is led back to itself. *)
 From Coq Require Import List Arith Bool.
-From MLV Require Import model.NetModel model.Check13 proofs.NetProofs.
+From MLV Require Import model.NetModel model.Check13 proofs.NetProofs proofs.NetPaths.
 Import ListNotations.
 
 (* a put reaches every responder of its lookup: each stores the key, and one is enough for Ok *)
@@ -51,6 +51,44 @@ Theorem C01_put_then_get_every_history : forall evs w r key,
   snd (put nt w key) = true /\ get_finds (fst (put nt w key)) r key = true.
 Proof. exact put_then_get_history. Qed.
 
+
+(* the general form, for chains of any length and any subset of crashes, the first node included.
+   `chain nt l`: every node of l but the last responds and lists its successor in its main table;
+   `reaches nt a c`: a chain leads from a to c. A lookup asks everything its table leads to: *)
+Theorem C01_lookup_follows_every_chain : forall nt j find key d c,
+  mem d (n_main (get nt j)) = true -> reaches nt d c -> mem c (queried nt j find key) = true.
+Proof. exact queried_reaches. Qed.
+
+(* the read: the reader knows a node from which a chain of responding nodes leads to a responding holder
+   other than the reader itself *)
+Theorem C01_get_finds_along_any_chain : forall nt r key d c,
+  mem d (n_main (get nt r)) = true -> reaches nt d c -> responds nt c = true -> c <> r ->
+  mem key (n_store (get nt c)) = true -> get_finds nt r key = true.
+Proof. exact get_finds_reaches. Qed.
+
+(* put, any crashes, get: the writer's table leads to a responding node c: the put returns Ok and c holds the value;
+   then the nodes xs crash (any nodes, the first node too); the reader still knows the head of a chain l of nodes
+   outside xs that ends in c, and c is not the reader: the read returns the value *)
+Theorem C01_put_any_crashes_get : forall nt w r key dw c xs l,
+  mem dw (n_main (get nt w)) = true -> reaches nt dw c -> responds nt c = true -> c <> w ->
+  let nt1 := fst (put nt w key) in
+  let nt2 := crash_all nt1 xs in
+  l <> [] -> chain nt1 l -> mem (hd 0 l) (n_main (get nt1 r)) = true -> last l 0 = c ->
+  (forall x, In x xs -> ~ In x l) -> c <> r ->
+  snd (put nt w key) = true /\ get_finds nt2 r key = true.
+Proof. exact put_crash_get. Qed.
+
+(* its hypotheses are met with the first node among the crashed: five nodes joined in a row (each through its
+   predecessor), a put on node 1 (which knows the first node only; the first node lists node 3), nodes 0 and 2 crash,
+   node 4 reads from node 3 *)
+Example C01_any_crashes_nonvacuous :
+  let nt := join (join (join (join (join [] true []) true [0]) true [1]) true [2]) true [3] in
+  let nt1 := fst (put nt 1 7) in
+  mem 0 (n_main (get nt 1)) = true /\ chain nt [0; 3] /\ responds nt 3 = true /\
+  chain nt1 [3] /\ mem 3 (n_main (get nt1 4)) = true /\
+  get_finds (crash_all nt1 [0; 2]) 4 7 = true.
+Proof. vm_compute. auto 10. Qed.
+
 (* non-vacuity: four nodes, a put on node 3, node 0 crashes, node 2 still finds it through node 1 *)
 Example C01_nonvacuous :
   let nt := join (join (join (join [] true []) true [0]) true [0]) true [0] in
@@ -74,3 +112,7 @@ Print Assumptions C01_get_finds_through_a_live_node.
 Print Assumptions C01_put_then_get.
 Print Assumptions C01_put_then_get_every_history.
 Print Assumptions C01_nonvacuous.
+Print Assumptions C01_lookup_follows_every_chain.
+Print Assumptions C01_get_finds_along_any_chain.
+Print Assumptions C01_put_any_crashes_get.
+Print Assumptions C01_any_crashes_nonvacuous.
